@@ -22,4 +22,5 @@ var Registry = map[string]func(tier string, args []string) int{
 	"C10": func(t string, a []string) int { return C10(t) },
 	"C03": func(t string, a []string) int { return C03(t) },
 	"C04": func(t string, a []string) int { return C04(t) },
+	"C09": func(t string, a []string) int { return C09(t) },
 }
